@@ -58,6 +58,15 @@ def leading(t, depth=0):
         first, g = leading(a[0], depth + 1)
         guard = deref_all(a[1])
         guarded = guard[0] == 'call' and canon(guard[1]).endswith('combinator::not')
+        if guarded and guard[2]:
+            # not(one_of("...")): remember which characters the look-ahead excludes
+            inner = deref_all(guard[2][0])
+            if inner[0] == 'call' and canon(inner[1]).endswith('one_of') and inner[2]:
+                v = deref_all(inner[2][0])
+                if v[0] == 'const' and isinstance(v[1], str):
+                    return first, frozenset(v[1])
+                if v[0] == 'const' and isinstance(v[1], tuple):
+                    return first, frozenset(chr(x) for x in v[1] if isinstance(x, int))
         return first, guarded or g
     if n == 'tuple' and a:
         return leading(a[0], depth + 1)
@@ -501,6 +510,10 @@ def r09_8(ctx, run, rule, prefixes, floor):
                         problems.append(f'alternative #{i} ({li[1]!r}) succeeds on a proper prefix of what alternative #{j} ({lj[1]!r}) needs, so #{j} can never match')
                 if li[0] == 'num' and lj[0] == 'num' and li[1] in ('u64', 'i64', 'i32', 'u32') and lj[1] == 'double' and not gi:
                     problems.append(f'the integer parser {li[1]} (alternative #{i}) precedes double (alternative #{j}) without a guard: for 1.5 or 1e3 it consumes the integer part and the literal is lost')
+                elif li[0] == 'num' and lj[0] == 'num' and li[1] in ('u64', 'i64', 'i32', 'u32') and lj[1] == 'double' and isinstance(gi, frozenset) and not {'.', 'e', 'E'} <= gi:
+                    miss = sorted({'.', 'e', 'E'} - gi)
+                    problems.append(f'the look-ahead after the integer parser {li[1]} (alternative #{i}) does not exclude {miss}: for a literal such as 1{miss[0]}3 it accepts the integer part, '
+                                    f'double (alternative #{j}) is never tried and the literal is rejected or cut short')
         t = e[5]
         loc = f"{t.get('file')}:{t.get('line')}"
         d = 'alt[' + ','.join(str(x) for x in desc) + ']'
